@@ -14,7 +14,7 @@ from common import Ctx, Counters, Failure, main_wrapper, run_workers
 PID = "C16"
 RULE = ("Hypothesis-generated configurations (every output incl. failing sinks /dev/full, directory, missing socket/dir; every "
         "data source incl. a format naming all of them; every filter with and without arguments; valid, invalid, duplicate and "
-        "continuation-line options) x exec inputs x runs of 3..8 (thorough: up to 200) identical calls after two warm-up calls, "
+        "continuation-line options; syntactically broken files: stray lines, unterminated section header, over-long line) x exec inputs x runs of 3..8 (thorough: up to 200) identical calls after two warm-up calls, "
         "in plain -O2 builds with and without thread safety. Observed before the call / at real-exec entry / after return: fd "
         "table (numbers, targets, flags), live heap (mallinfo2, tcache off), environ pointer+content hash, cwd, umask, signal "
         "mask, all sigactions, RLIMIT_NOFILE. Oracle: all equal at the three points, heap growth exactly 0 at exec entry and "
@@ -53,6 +53,12 @@ def strategy():
                 pos = draw(st.integers(1, len(lines)))
                 lines.insert(pos, b"   " + draw(st.sampled_from([b"devnull", b"file:@OUT@/log", b"x", b"noop", b"%{pid}"])))
                 feats.append("continuation")
+            if draw(st.sampled_from([False, False, False, True])):
+                # a file that is syntactically broken somewhere: options before and after the bad line are still parsed
+                bad = draw(st.sampled_from([b"this line has neither an equals sign nor a colon", b"[section header without the bracket",
+                                            b"message_format = " + b"L" * 1100, b"=", b"no_value_marker"]))
+                lines.insert(draw(st.integers(0, len(lines))), bad)
+                feats.append("syntax-error")
             cfg = dict(cfg, ini=b"[snoopy]\n" + b"\n".join(lines) + b"\n")
         kind = draw(st.sampled_from(["v", "e"]))
         argv = draw(gen.st_vector(big=False))
